@@ -227,7 +227,9 @@ def binary_run(exe, y, toks, hist, kind, fmt='json'):
                           stdout=subprocess.PIPE, stderr=subprocess.PIPE)
     # what the reference expects for these datagrams (exporter = 127.0.0.1 and our sending port): known before sending,
     # so that the collector is stopped when it has written that much -- or after a long silence -- and not on a guess
-    h2 = ' '.join(' '.join(['=7f000001', '#%x' % sport, q[2], q[3]]) for q in quads)
+    # the receiver reads a datagram into a 9000-byte buffer (utils/udp.go): what the pipe sees of a longer one is its
+    # first 9000 bytes, and that is what the reference is given
+    h2 = ' '.join(' '.join(['=7f000001', '#%x' % sport, q[2], q[3][:1 + 2 * 9000]]) for q in quads)
     line = ('pipec %s yamlj:%s %s %s' % (kind, y.encode().hex(), ' '.join(toks), h2)) if y else ('fmtchk %s none %s' % (kind, h2))
     model = model_run('C14' if y else 'C13', [line])[0]
     mt = model.split(' ')
